@@ -85,8 +85,9 @@ UNIVERSES = {
     "falsy-d2": (("a", "b"), (0, ""), 2),
     "emptylist-d2": (("a", "b"), ([], False), 2),
     "odict-d2": (("a", "b"), (1, None), 2),
+    "eqtypes-d2": (("a", "b"), (1, True), 2),  # leaves that compare equal but are different values: the override's one is kept
 }
-QUICK = ["ab-d2", "dotted-d2", "lists-d2", "abc-d1", "a-d4", "falsy-d2", "emptylist-d2", "odict-d2"]
+QUICK = ["ab-d2", "dotted-d2", "lists-d2", "abc-d1", "a-d4", "falsy-d2", "emptylist-d2", "odict-d2", "eqtypes-d2"]
 THOROUGH = QUICK + ["ab-d3"]
 
 
@@ -142,6 +143,31 @@ class C17:
                     "choices": [], "trace": [], "outcome": "done",
                 })
 
+        if unit["lo"] == 0 and unit["universe"] == "ab-d2":
+            # ONE dictionary object used as the override under two keys (what a YAML alias produces): both collisions are merges
+            import copy as _copy
+
+            small = universe(("x", "y"), (1,), 1)
+            origs = universe(("a", "b"), (1,), 2)
+            for oi, ospec in enumerate(origs):
+                for sspec in small:
+                    o_ = build(ospec, (1,))
+                    if not (isinstance(o_.get("a"), dict) and isinstance(o_.get("b"), dict)):
+                        continue
+                    shared = build(sspec, (1,))
+                    over = {"a": shared, "b": shared}
+                    pristine = _copy.deepcopy(o_)
+                    try:
+                        r = merge_config(o_, over)
+                    except Exception as e:  # noqa: BLE001
+                        report("raises", f"shared override {shared!r}: {type(e).__name__}: {e}", -1, "shared")
+                        continue
+                    s["evaluations"] += 1
+                    exp = ref_merge(pristine, {"a": _copy.deepcopy(shared), "b": _copy.deepcopy(shared)})
+                    if not strict_eq(r, exp):
+                        report("result", f"merge_config({pristine!r}, {{'a': S, 'b': S}}) with the one object S={shared!r} under both keys = {r!r}, expected {exp!r}", -1, "shared")
+                    if not strict_eq(o_, pristine):
+                        report("mutated", f"original changed from {pristine!r} to {o_!r} (shared override {shared!r})", -1, "shared")
         if unit["lo"] == 0:
             # None for BOTH arguments (once per universe)
             try:
@@ -228,6 +254,15 @@ class C17:
         specs = universe(keys, leaves, depth)
         o = build(specs[p["original"]], leaves, orig_class(p["universe"])) if p["original"] >= 0 else None
         j = p["overrides"]
+        if j == "shared":
+            print("(shared-override family: re-running the whole family)")
+            s2 = self.work({"universe": "ab-d2", "lo": 0, "hi": 0}, "quick")
+            for v in s2["violations"]:
+                for f in v["fails"]:
+                    print("FAIL", f[0], "-", f[1])
+            if s2["violations"]:
+                print(f"VIOLATION property=C17 replay={rec.get('_path', '')}")
+            return 1 if s2["violations"] else 0
         if j == "both-none":
             a, b = None, None
         elif j == "orig-none":
